@@ -1431,79 +1431,100 @@ fn proj_sig(p: &Proj) -> String {
     )
 }
 
-/// The grammar shape of a query: clause skeleton, pattern skeleton and the operator sets used.
+fn op_class(o: &str) -> &'static str {
+    match o {
+        "eq" | "ne" | "ord" => "cmp",
+        "and" | "or" | "xor" | "not" | "isnull" => "bool",
+        "add" | "sub" | "mul" | "div" | "mod" | "neg" => "arith",
+        "in" => "in",
+        "list" | "listlit" => "list",
+        "id" | "labels" | "type" | "size" | "coalesce" => "fn",
+        "null" => "null",
+        "prop" => "prop",
+        "param" => "param",
+        _ => "other",
+    }
+}
+
+fn class_sig(es: &[&Expr]) -> String {
+    let mut s = BTreeSet::new();
+    for e in es {
+        expr_ops(e, &mut s);
+    }
+    let c: BTreeSet<&'static str> = s.into_iter().map(op_class).collect();
+    c.into_iter().collect::<Vec<_>>().join(",")
+}
+
+fn proj_shape(p: &Proj) -> String {
+    let mut es: Vec<&Expr> = Vec::new();
+    let mut aggs = BTreeSet::new();
+    for (it, _) in &p.items {
+        match it {
+            Item::Expr(e) => es.push(e),
+            Item::Agg(op, d, arg) => {
+                aggs.insert(format!("{}{}", if arg.is_none() { "count*" } else { agg_name(*op) }, if *d { "D" } else { "" }));
+                if let Some(e) = arg {
+                    es.push(e);
+                }
+            }
+        }
+    }
+    for (e, _) in &p.order {
+        es.push(e);
+    }
+    format!(
+        "{}{}{}{}{}[{}]",
+        if p.distinct { "D" } else { "" },
+        if aggs.is_empty() { String::new() } else { format!("A({})", aggs.into_iter().collect::<Vec<_>>().join(",")) },
+        if p.order.is_empty() { "" } else { "O" },
+        if p.skip.is_some() { "S" } else { "" },
+        if p.limit.is_some() { "L" } else { "" },
+        class_sig(&es)
+    )
+}
+
+/// The grammar shape of a query: the clause skeleton (kind of each clause, number of paths and
+/// segments, variable length, inline properties, multi-label), the projection modifiers and the
+/// classes of operators used in each clause. Recorded in corpus/C01/supported.jsonl when every
+/// instance seen on the pinned tree answered Ok.
 pub fn shape_of(q: &Query) -> String {
     let part = |s: &SQuery| {
-        let mut bound: BTreeSet<u32> = BTreeSet::new();
         let mut out = Vec::new();
         for c in &s.clauses {
             match c {
                 Clause::Match { opt, pats, wher } => {
-                    let mut t = String::from(if *opt { "OM" } else { "M" });
-                    for p in pats {
-                        let mut np = |n: &NPat, bound: &mut BTreeSet<u32>| {
-                            let b = match n.var {
-                                Some(v) => {
-                                    if bound.insert(v) {
-                                        "v"
-                                    } else {
-                                        "b"
-                                    }
-                                }
-                                None => "",
-                            };
-                            format!("({}l{}{})", b, n.labels.len().min(2), if n.props.is_empty() { "" } else { "p" })
-                        };
-                        t.push_str(&np(&p.start, &mut bound));
-                        for (r, n) in &p.segs {
-                            if let Some(v) = r.var {
-                                bound.insert(v);
-                            }
-                            t.push_str(&format!(
-                                "{}{}t{}{}{}",
-                                ["-", "<", "~"][r.dir as usize],
-                                if r.var.is_some() { "v" } else { "" },
-                                r.types.len().min(2),
-                                if r.props.is_empty() { "" } else { "p" },
-                                match r.len {
-                                    None => String::new(),
-                                    Some((lo, hi)) => format!("*{}{}", lo.min(2), match hi {
-                                        None => "u".to_string(),
-                                        Some(h) if h == lo => "e".to_string(),
-                                        _ => "r".to_string(),
-                                    }),
-                                }
-                            ));
-                            t.push_str(&np(n, &mut bound));
-                        }
-                        t.push(',');
-                    }
-                    if let Some(w) = wher {
-                        t.push_str(&format!(" W[{}]", ops_sig(&[w])));
-                    }
-                    out.push(t);
-                }
-                Clause::Unwind(e, v) => {
-                    bound.insert(*v);
-                    out.push(format!("UNW[{}]", ops_sig(&[e])));
-                }
-                Clause::With(p, w) => {
-                    bound.clear();
-                    for (_, a) in &p.items {
-                        bound.insert(*a);
-                    }
+                    let segs: usize = pats.iter().map(|p| p.segs.len()).sum();
+                    let varlen = pats.iter().any(|p| p.segs.iter().any(|(r, _)| r.len.is_some()));
+                    let props = pats.iter().any(|p| {
+                        !p.start.props.is_empty() || p.segs.iter().any(|(r, n)| !r.props.is_empty() || !n.props.is_empty())
+                    });
+                    let ml = pats.iter().any(|p| p.start.labels.len() > 1 || p.segs.iter().any(|(_, n)| n.labels.len() > 1));
                     out.push(format!(
-                        "WITH{}{}",
-                        proj_sig(p),
-                        match w {
-                            Some(w) => format!(" W[{}]", ops_sig(&[w])),
+                        "{}p{}s{}{}{}{}{}",
+                        if *opt { "OM" } else { "M" },
+                        pats.len(),
+                        segs,
+                        if varlen { "*" } else { "" },
+                        if props { "i" } else { "" },
+                        if ml { "m" } else { "" },
+                        match wher {
+                            Some(w) => format!(" W[{}]", class_sig(&[w])),
                             None => String::new(),
                         }
                     ));
                 }
+                Clause::Unwind(e, _) => out.push(format!("UNW[{}]", class_sig(&[e]))),
+                Clause::With(p, w) => out.push(format!(
+                    "WITH{}{}",
+                    proj_shape(p),
+                    match w {
+                        Some(w) => format!(" W[{}]", class_sig(&[w])),
+                        None => String::new(),
+                    }
+                )),
             }
         }
-        out.push(format!("RET{}", proj_sig(&s.ret)));
+        out.push(format!("RET{}", proj_shape(&s.ret)));
         out.join(" | ")
     };
     q.parts.iter().map(part).collect::<Vec<_>>().join(if q.all { " UNIONALL " } else { " UNION " })
